@@ -95,7 +95,7 @@ QDepth2(tabs) == Base \cup InQs \cup OverTables(tabs, InQs) \cup Over(Base, tabs
 QDepth3(tabs, gs2, gs3) == Over(Over(Base, tabs, gs2), tabs, gs3)
 
 GEmpty == Select(<<Tg(Col("x"), "")>>, Tab("t"), Bin("gt", Col("x"), Const(I(100))), <<>>, FALSE, -1)
-QQuick(tabs) == QDepth2(tabs) \cup QDepth3(tabs, {G0}, {G0, GEmpty})
+QQuick(tabs) == QDepth2(tabs) \cup QDepth3(tabs, {G0}, {G0})
 QAll(tabs) == QDepth2(tabs) \cup QDepth3(tabs, InQs, InQs)
 
 (* the statement of the counterexample on the mechanism as shipped:  SELECT x IN (SELECT y FROM #u) FROM #t *)
